@@ -53,6 +53,14 @@ def build_alphabet(darsia):
         G.update_params(mass_coeff=mass, diffusion_coeff=diff, dim=2)
         return G(IMG_A.copy(), RHS_A.copy())
 
+    def mg2(small):
+        # one explicit two-level MG object: a small image (too small for two levels - the call may be refused) and
+        # the regular image
+        G = shared("MG2", lambda: darsia.MG(depth=2, smoother_iterations=2, maxiter=2, mass_coeff=1.0, diffusion_coeff=1.0, dim=2))
+        if small:
+            return G(IMG_A[:6, :5].copy(), RHS_A[:6, :5].copy())
+        return G(IMG_A.copy(), RHS_A.copy())
+
     def mg_het():
         G = shared("MGH", lambda: darsia.MG(depth=1, smoother_iterations=2, maxiter=2, mass_coeff=COEF_M.copy(), diffusion_coeff=COEF_D.copy(), dim=2))
         return G(IMG_A.copy(), RHS_A.copy())
@@ -126,6 +134,9 @@ def build_alphabet(darsia):
             "adaptive_cg_aa": ("bregman_adaptive", "pressure", "cg", 2),
             "bregman_direct_aa": ("bregman", "pressure", "direct", 2),
             "adaptive_homogeneous": ("bregman_adaptive", "pressure", "direct", 0),
+            "bregman_L2": ("bregman", "pressure", "direct", 0),
+            "bregman_L2_flux_reduced": ("bregman", "flux_reduced", "direct", 0),
+            "bregman_amg_custom": ("bregman", "pressure", "amg", 0),
             "newton_aa_restart": ("newton", "full", "direct", 3),
         }[kind]
 
@@ -136,11 +147,18 @@ def build_alphabet(darsia):
                 opt.update({"bregman_homogeneous": True, "L": 10.0, "bregman_update": lambda it: it % 3 == 2})
             if kind == "newton_aa_restart":
                 opt.update({"aa_restart": 2})
+            if kind.startswith("bregman_L2"):
+                opt.update({"L": 2.0})
+            if kind == "bregman_amg_custom":
+                # user-defined pyamg set-up forcing a genuine hierarchy on this small system
+                opt.update({"amg_options": {"max_coarse": 5, "max_levels": 3}})
             return W.solver_class(darsia, cfg[0])(darsia.Grid(shape, [1.0, 0.75]), None, opt)
 
         # the grid (shape) is fixed per object; voxel sizes of the images must match the object
         m1, m2 = W.images(darsia, a, b, [1.0, 0.75])
         w1 = shared("W:" + kind, ctor)
+        if kind == "bregman_amg_custom":
+            np.random.seed(0)  # pyamg's multilevel set-up draws from the global generator
         d, info = w1(m1, m2)
         return np.concatenate([[d], np.asarray(info["flux"]).ravel(), np.asarray(info["pressure"]).ravel()])
 
@@ -174,6 +192,13 @@ def build_alphabet(darsia):
         "aa_d2r3_tail": lambda: anderson_window(2, 3, 3, 6, 12),
         "aa_d3r2_head": lambda: anderson_window(3, 2, 0, 2, 13),
         "aa_d3r2_tail": lambda: anderson_window(3, 2, 2, 4, 14),
+        "mg2_small": lambda: mg2(True),
+        "mg2_regular": lambda: mg2(False),
+        "w_bregman_L2_A": lambda: wass("bregman_L2", 0),
+        "w_bregman_L2_B": lambda: wass("bregman_L2", 1),
+        "w_bregman_L2fr_A": lambda: wass("bregman_L2_flux_reduced", 0),
+        "w_bregman_L2fr_B": lambda: wass("bregman_L2_flux_reduced", 1),
+        "w_bregman_amg_custom": lambda: wass("bregman_amg_custom", 0),
         "w_adaptive_homog_A": lambda: wass("adaptive_homogeneous", 0),
         "w_adaptive_homog_B": lambda: wass("adaptive_homogeneous", 1),
         "w_newton_aa_restart_A": lambda: wass("newton_aa_restart", 0),
@@ -205,6 +230,7 @@ LETTERS = [
     "tvd_het", "aa_seq1", "aa_seq2", "w_newton_A", "w_newton_B", "w_newton_amg_aa_A", "w_newton_amg_aa_B", "w_bregman_A", "w_bregman_B",
     "w_bregman_amg_A", "w_bregman_amg_B", "w_adaptive_A", "w_adaptive_B", "w_bregman_aa_A", "w_bregman_aa_B", "h1_mgarr_A", "h1_mgarr_B", "mg_upd_A", "mg_upd_B",
     "aa_d2r3_head", "aa_d2r3_tail", "aa_d3r2_head", "aa_d3r2_tail", "w_adaptive_homog_A", "w_adaptive_homog_B", "w_newton_aa_restart_A", "w_newton_aa_restart_B",
+    "mg2_small", "mg2_regular", "w_bregman_L2_A", "w_bregman_L2_B", "w_bregman_L2fr_A", "w_bregman_L2fr_B", "w_bregman_amg_custom",
 ]
 # letters that can share state with each other (same object or same module-level default)
 GROUPS = {
@@ -220,7 +246,10 @@ GROUPS = {
     "w_newton": ["w_newton_A", "w_newton_B"],
     "w_newton_amg_aa": ["w_newton_amg_aa_A", "w_newton_amg_aa_B"],
     "w_bregman": ["w_bregman_A", "w_bregman_B"],
-    "w_bregman_amg": ["w_bregman_amg_A", "w_bregman_amg_B"],
+    "w_bregman_amg": ["w_bregman_amg_A", "w_bregman_amg_B", "w_bregman_amg_custom"],
+    "mg_two_level": ["mg2_small", "mg2_regular"],
+    "w_bregman_L2": ["w_bregman_L2_A", "w_bregman_L2_B"],
+    "w_bregman_L2_flux_reduced": ["w_bregman_L2fr_A", "w_bregman_L2fr_B"],
     "w_adaptive": ["w_adaptive_A", "w_adaptive_B"],
     "w_bregman_aa": ["w_bregman_aa_A", "w_bregman_aa_B"],
     "h1_mg_arrays": ["h1_mgarr_A", "h1_mgarr_B"],
